@@ -134,7 +134,7 @@ func c18Exec(run *ev.Run, c ev.Case) {
 			kinds = append(kinds, "conn-close")
 		}
 		if sess != nil {
-			kinds = []string{"cmd-ok", "cmd-ok", "cmd-cc", "cmd-busy-ok", "cmd-garbage-ok", "cmd-trunc", "cmd-lost", "cmd-serfail", "cmd-nobody-ok", "close-ok", "close-fail", "sl-ok", "dial-ok", "dial-bad", "cmd-ctx-done", "sl-cc", "cmd-any", "cmd-any", "cmd-any", "sl-any", "sl-stray-ok", "cmd-stray-ok", "cmd-busy-giveup", "dial-odd-timeout"}
+			kinds = []string{"cmd-ok", "cmd-ok", "cmd-cc", "cmd-busy-ok", "cmd-garbage-ok", "cmd-trunc", "cmd-lost", "cmd-serfail", "cmd-nobody-ok", "close-ok", "close-fail", "sl-ok", "dial-ok", "dial-bad", "cmd-ctx-done", "sl-cc", "cmd-any", "cmd-any", "cmd-any", "sl-any", "sl-stray-ok", "cmd-stray-ok", "cmd-busy-giveup", "dial-odd-timeout", "cmd-busy-ok-at-wrap"}
 		}
 		kind := kinds[r.Intn(len(kinds))]
 		if r.Intn(70) == 0 {
@@ -425,6 +425,13 @@ func c18Exec(run *ev.Run, c ev.Case) {
 				if err == nil {
 					run.Violation("C18:harness-ctx-done", "command with a cancelled context succeeded", cs, nil)
 				}
+			case "cmd-busy-ok-at-wrap":
+				// a session that has carried 2^32 - k datagrams: the exported counter is put just below
+				// its wrap (and the BMC's duplicate window moved along), so that the retransmissions
+				// of one call straddle 0xffffffff -> 0
+				sess.AuthenticatedSequenceNumbers.Inbound = 0xffffffff - uint32(r.Intn(4))
+				se.BMC.ForgetSequenceNumbers()
+				command(sess, &ipmi.GetChassisStatusCmd{}, []string{"busy", "tmo", "busy", "garbage:noise"}[:2+r.Intn(3)], []byte{0x21, 0x10, 0x40, 0x54}, 3)
 			case "cmd-busy-ok":
 				command(sess, &ipmi.GetChassisStatusCmd{}, []string{"busy", "tmo", "busy"}[:1+r.Intn(3)], []byte{0x21, 0x10, 0x40, 0x54}, 3)
 			case "cmd-garbage-ok":
